@@ -130,21 +130,21 @@ pub async fn type_definition(
                                 Entry::Procedure(_) => { /* no type definition */ }
                                 Entry::Variable(v) | Entry::Parameter(v) => {
                                     if let Some(DataType::Array { creator, .. }) = &v.data_type {
-                                        let entry =
-                                            doc.table.lookup(creator).expect("Invalid creator");
-                                        match entry {
-                                            GlobalEntry::Type(t) => {
-                                                return Ok(Some(Location {
-                                                    uri,
-                                                    range: as_pos_range(
-                                                        &entry.to_text_range(
-                                                            &doc.tokens[t.to_range()],
-                                                        ),
-                                                        &doc.text,
-                                                    ),
-                                                }));
-                                            }
-                                            _ => panic!("Creator must be a type"),
+                                        // The creator of an array type that is written down
+                                        // in the declaration of the variable itself
+                                        // is the variable, not a type declaration.
+                                        // There is no type definition to go to then.
+                                        if let Some(entry @ GlobalEntry::Type(t)) =
+                                            doc.table.lookup(creator)
+                                        {
+                                            return Ok(Some(Location {
+                                                uri,
+                                                range: as_pos_range(
+                                                    &entry
+                                                        .to_text_range(&doc.tokens[t.to_range()]),
+                                                    &doc.text,
+                                                ),
+                                            }));
                                         }
                                     }
                                     /* cannot look up primitive types */
